@@ -661,7 +661,9 @@ func (x *gen) join(d int) ex {
 		d = 1
 	}
 	if x.g.Aggregations {
-		switch k := x.n(10, "directed"); {
+		switch k := x.n(12, "directed"); {
+		case k >= 10:
+			return x.joinByOverBy()
 		case k >= 8:
 			return x.joinReintro()
 		case k >= 4:
@@ -720,6 +722,106 @@ func (x *gen) without1(ls []string, drop string) []string {
 		}
 	}
 	return out
+}
+
+// joinByOverBy: a label L named in a positive matcher survives an inner label-fixing step (by(.., L) or a
+// one-to-one on(.., L)) and is dropped by an outer by(Ms); the result is joined WITHOUT on()/ignoring() with a side
+// that carries exactly the labels Ms as well - so the two sides do match although one selector names L.
+func (x *gen) joinByOverBy() ex {
+	g := x.g
+	labels := g.U.Labels
+	L := x.pick(labels, "bbL")
+	others := x.without1(labels, L)
+	if len(others) == 0 || !g.By {
+		return x.joinOverlap()
+	}
+	M := x.pick(others, "bbM")
+	Ms := x.someOf(others, []string{M}, "bbMs")
+	inL := append(append([]string{}, Ms...), L)
+	metric := func() string { return x.pick(g.U.Metrics, "metric") }
+	matcher := L + `="1"`
+	switch x.n(4, "bbmatch") {
+	case 1:
+		if g.RegexMatchers {
+			matcher = L + `=~".+"`
+		}
+	case 2:
+		if g.RegexMatchers {
+			matcher = L + `=~"1|2"`
+		}
+	case 3:
+		matcher = L + `="2"`
+	}
+	selL := ex{metric() + "{" + matcher + "}", true}
+	if g.RangeFuncs && x.chance(1, 4, "bbrate") {
+		selL = ex{x.pick([]string{"rate", "increase", "max_over_time", "count_over_time"}, "bbrfn") + "(" + selL.s + "[5m])", true}
+	}
+	// inner: fixes the labels and keeps L
+	var inner ex
+	switch x.choose([]prod{{"by", 5}, {"on", 2}, {"byby", 1}}, "bbinner") {
+	case "on":
+		if g.On && (g.Arith || g.Compare) {
+			op := "+"
+			if g.Arith {
+				op = x.pick(arithOps, "arop")
+			}
+			inner = ex{selL.s + " " + op + " on(" + strings.Join(x.maybeRepeat(inL, "bbon", 8), ", ") + ") " + metric(), false}
+		} else {
+			inner = x.aggWith(selL, "by", inL)
+		}
+	case "byby":
+		inner = x.aggWith(x.aggWith(selL, "by", x.someOf(labels, inL, "bbin2")), "by", inL)
+	default:
+		inner = x.aggWith(selL, "by", x.maybeRepeat(inL, "bbby", 8))
+	}
+	// outer by() drops L
+	left := x.aggWith(inner, "by", Ms)
+	if g.Funcs && x.chance(1, 6, "bbfn") {
+		left = x.fn(left)
+	}
+	// the other side: the same label set without ever naming L
+	var right ex
+	switch x.choose([]prod{{"by", 6}, {"byby", 2}, {"side", 1}}, "bbother") {
+	case "byby":
+		right = x.aggWith(x.aggWith(ex{metric(), true}, "by", x.someOf(labels, Ms, "bbr2")), "by", Ms)
+	case "side":
+		right = x.side(0)
+	default:
+		right = x.aggWith(ex{metric(), true}, "by", Ms)
+	}
+	l, r := left, right
+	if x.chance(1, 3, "bbswap") {
+		l, r = right, left
+	}
+	var kinds []string
+	if g.Arith {
+		kinds = append(kinds, "arith", "arith")
+	}
+	if g.Compare {
+		kinds = append(kinds, "cmp")
+	}
+	if g.SetOps {
+		kinds = append(kinds, "and", "unless")
+	}
+	if len(kinds) == 0 {
+		return x.binvv(l, r)
+	}
+	kind := x.pick(kinds, "binkind")
+	op := kind
+	switch kind {
+	case "arith":
+		op = x.pick(arithOps, "arop")
+	case "cmp":
+		op = x.pick(cmpOps, "cmpop")
+		if g.Bool && x.chance(1, 4, "bool") {
+			op += " bool"
+		}
+	}
+	mod := ""
+	if x.chance(1, 6, "bbmod") {
+		mod = x.matching(l, r, kind == "arith" || kind == "cmp")
+	}
+	return ex{x.operand(l) + " " + op + " " + mod + x.operand(r), false}
 }
 
 // joinReintro: a label L is removed on one side (without / one-to-one ignoring / by without L) and then
